@@ -37,6 +37,12 @@ FlagBits == (0 .. 11) \cup (52 .. 63)       \* bit 12 (PAT of huge leaves) lives
 AddrField == MaskW(OB, PB)
 
 ZeroE == [addr |-> ZeroW, flags |-> {}]
+(* flags a leaf of size class s may carry: for huge leaves bit 12 is the PAT bit *)
+LeafFlagBits(s) == FlagBits \cup (IF s > 0 THEN {12} ELSE {})
+(* the entry a leaf mapping is stored as (entries keep bit 12 in the address field) *)
+LeafEntry(frame, F, s) ==
+    [addr |-> IF s > 0 /\ 12 \in F THEN OrW(frame, PowW(12)) ELSE frame,
+     flags |-> (F \ {12}) \cup (IF s > 0 THEN {7} ELSE {})]
 NoFrame == <<>>                             \* allocator answer "None"
 
 Decode(raw) == [addr |-> AndW(raw, AddrField), flags |-> BitsOf(raw) \cap FlagBits]
@@ -135,7 +141,7 @@ MapWalk(m, cur, lvl, al, used, trav, c) ==
     IN IF lvl = TL(c.s)
        THEN IF e = ZeroE
             THEN [kinds |-> {"Ok"}, used |-> used, trav |-> trav, ok |-> TRUE,
-                  m |-> SetSlot(m, cur, i, [addr |-> c.frame, flags |-> c.F \cup HugeBit(c.s)])]
+                  m |-> SetSlot(m, cur, i, LeafEntry(c.frame, c.F, c.s))]
             ELSE [kinds |-> {"PageAlreadyMapped"}, used |-> used, trav |-> trav, ok |-> FALSE, m |-> m]
        ELSE IF e = ZeroE
             THEN IF al = <<>> THEN [kinds |-> {}, used |-> used, trav |-> trav, ok |-> FALSE, m |-> m]
@@ -166,7 +172,7 @@ MapPre(c, allocs) ==
     /\ c.s \in SizeClass
     /\ Canonical(c.page) /\ LowZero(c.page, SizeBits(c.s))
     /\ PhysValid(c.frame) /\ LowZero(c.frame, SizeBits(c.s))
-    /\ P \in c.F /\ c.F \subseteq FlagBits /\ (c.s > 0 => HUGE \notin c.F)
+    /\ P \in c.F /\ c.F \subseteq LeafFlagBits(c.s) /\ (c.s > 0 => HUGE \notin c.F)
     /\ P \in c.PF /\ HUGE \notin c.PF /\ c.PF \subseteq FlagBits
     /\ c.extra \subseteq {P, RW}
     /\ IndexOf(c.page, 4) # rix
@@ -197,7 +203,7 @@ UpdateSem(m, am, s, page, F) ==
        ELSE IF d.k = "huge" THEN Out({"ParentEntryHugePage"}, m, am, ZeroW, ZeroW)
        ELSE IF ~Present(e) THEN Out({"PageNotMapped"}, m, am, ZeroW, ZeroW)
        ELSE IF s = 0 \/ HUGE \in e.flags
-       THEN Out({"Ok"}, SetSlot(m, d.tbl, i, [e EXCEPT !.flags = F \cup HugeBit(s)]),
+       THEN Out({"Ok"}, SetSlot(m, d.tbl, i, LeafEntry(AlignDownV(e.addr, SizeBits(s)), F, s)),
                 [am EXCEPT ![<<s, page>>].flags = F], page, ZeroW)
        ELSE Out(AnyError, m, am, ZeroW, ZeroW)
 
@@ -225,8 +231,8 @@ SetFlagsSem(m, am, s, page, K, F) ==
 
 FlagsPre(s, page, F) ==
     /\ s \in SizeClass /\ Canonical(page) /\ LowZero(page, SizeBits(s))
-    /\ P \in F /\ F \subseteq FlagBits /\ IndexOf(page, 4) # rix
-ParentFlagsPre(F) == HUGE \notin F
+    /\ P \in F /\ F \subseteq LeafFlagBits(s) /\ IndexOf(page, 4) # rix
+ParentFlagsPre(F) == HUGE \notin F /\ F \subseteq FlagBits
 
 -----------------------------------------------------------------------------
 (* the tables of the hierarchy and clean-up (C10) *)
@@ -290,7 +296,9 @@ DeriveAmapR(m, rt, rx) ==
     LET L == LeavesR(m, rt, rx)
         K == { << x.s, x.page >> : x \in L }
     IN [ k \in K |-> LET x == CHOOSE x \in L : << x.s, x.page >> = k
-                     IN [frame |-> AlignDownV(x.e.addr, SizeBits(x.s)), flags |-> x.e.flags \ HugeBit(x.s)] ]
+                     IN [frame |-> AlignDownV(x.e.addr, SizeBits(x.s)),
+                         flags |-> (x.e.flags \ HugeBit(x.s)) \cup
+                                   (IF x.s > 0 /\ Bit(x.e.addr, PATH) = 1 THEN {PATH} ELSE {})] ]
 TableFramesOfR(m, rt, rx) ==
     LET T3 == Tables3R(m, rt, rx)
         T2 == SubTables(m, T3, 2)
